@@ -215,15 +215,51 @@ func stepSpan(t *task, ev event) string {
 	return ev.kind
 }
 
-// diffFields names what differs between two dumps: a single configuration
-// field name, "slots", or "several".
+// splitDump tokenises the configuration part of a dump, respecting quoted
+// strings and nested brackets, and returns the fields and the slot part.
+func splitDump(d string) (fields []string, slots string) {
+	depth := 0
+	inq := false
+	start := 0
+	for i := 0; i < len(d); i++ {
+		c := d[i]
+		switch {
+		case inq:
+			if c == '\\' {
+				i++
+			} else if c == '"' {
+				inq = false
+			}
+		case c == '"':
+			inq = true
+		case c == '{' || c == '[' || c == '(':
+			depth++
+		case c == '}' || c == ']' || c == ')':
+			depth--
+		case c == ' ' && depth == 0:
+			if i > start {
+				fields = append(fields, d[start:i])
+			}
+			start = i + 1
+		case c == '|' && depth == 0 && i > 0 && d[i-1] == ' ':
+			return fields, d[i:]
+		}
+	}
+	if start < len(d) {
+		fields = append(fields, d[start:])
+	}
+	return fields, ""
+}
+
+// diffFields names what differs between two dumps: a configuration field
+// name, "slots", several joined by "+", or "several" if the shapes differ.
 func diffFields(a, b string) string {
-	as, bs := strings.SplitN(a, " |", 2), strings.SplitN(b, " |", 2)
+	af, as := splitDump(a)
+	bf, bs := splitDump(b)
 	var changed []string
-	if len(as) == 2 && len(bs) == 2 && as[1] != bs[1] {
+	if as != bs {
 		changed = append(changed, "slots")
 	}
-	af, bf := strings.Fields(as[0]), strings.Fields(bs[0])
 	if len(af) != len(bf) {
 		return "several"
 	}
@@ -235,9 +271,6 @@ func diffFields(a, b string) string {
 			}
 			changed = append(changed, name)
 		}
-	}
-	if len(changed) == 1 {
-		return changed[0]
 	}
 	if len(changed) == 0 {
 		return "nothing"
